@@ -1663,6 +1663,11 @@ fn probe_step(args: &Args) {
                             got_d.push(s);
                         }
                     }
+                    // (no blocking operation here: the forked children share the instance's socket pair
+                    // with the stepping parent and would drain the byte it is about to read)
+                    "close" => {
+                        signals.as_ref().unwrap().handle().close();
+                    }
                     "emulate_first" => {
                         let _ = signal_hook::low_level::emulate_default_handler(libc::SIGWINCH);
                     }
